@@ -127,7 +127,13 @@ func runCheck(opt *checkOpts) int {
 	}
 	for i := range repo.cs.Lemmas {
 		lm := &repo.cs.Lemmas[i]
-		if pkgsUsed[lm.Pkg] && (opt.only == "" || opt.only == "lemmas") {
+		own := len(lm.Props) == 0
+		for _, p := range lm.Props {
+			if p == opt.property {
+				own = true
+			}
+		}
+		if pkgsUsed[lm.Pkg] && own && (opt.only == "" || opt.only == "lemmas") {
 			units = append(units, unit{key: lm.Pkg + ".lemma." + lm.Name, lemma: lm})
 		}
 	}
